@@ -184,6 +184,7 @@ pub struct KKTView {
     pub dsigns: Vec<i8>,
     pub hsblocks: Vec<f64>,
     pub diagonal_regularizer: f64,
+    pub ldl_values: Option<Vec<f64>>, // the LDL engine's own copy of the matrix values (input order), where the engine exposes it
     pub ldl_reg: Option<(bool, f64, f64)>, // dynamic regularisation of the LDL engine (enable, eps, delta), where the engine exposes it
 }
 
